@@ -45,8 +45,17 @@ CONES3 = ["orthant3", "acute3", "obtuse3", "fourfacet3"]
 
 
 def slack_of(alg):
+    """the slack the algorithm itself uses (decided-round replay: what the code does)"""
     if alg.verif_name == "VOGP":
         return np.asarray(alg.u_star_eps, dtype=float).reshape(-1)
+    return np.ones(alg.m) * float(alg.epsilon)
+
+
+def true_slack(alg, W):
+    """the slack of the PROPERTY: ε·u* with u* computed here from its definition (direction of the least-norm z
+    with W z ≥ 1, exact active-set enumeration) — never read from the algorithm; ε·𝟙 for ε-PAL"""
+    if alg.verif_name == "VOGP":
+        return float(alg.epsilon) * ustar_estimate(W)
     return np.ones(alg.m) * float(alg.epsilon)
 
 
@@ -111,16 +120,37 @@ _ustar_cache = {}
 
 
 def ustar_estimate(W):
-    """direction of the least-norm z with W z ≥ 1 (what VOGP.compute_u_star solves) — only used to place
-    test points; the verdict uses the algorithm's own exported u_star_eps"""
-    key = tuple(tuple(r) for r in W)
+    """u* = z/‖z‖ for the least-norm z with W z ≥ 1 (the definition VOGP.compute_u_star implements), by exact
+    active-set enumeration: z = W_Aᵀ λ with W_A W_Aᵀ λ = 1, λ ≥ 0, W z ≥ 1.  Independent of vopy; cross-checked
+    against an SLSQP solve."""
+    import itertools
+
+    key = tuple(tuple(float(x) for x in r) for r in W)
     if key not in _ustar_cache:
+        Wn = np.array(W, dtype=float)
+        N, m = Wn.shape
+        best = None
+        for k in range(1, min(N, m) + 1):
+            for A in itertools.combinations(range(N), k):
+                WA = Wn[list(A)]
+                G = WA @ WA.T
+                if abs(np.linalg.det(G)) < 1e-12:
+                    continue
+                lam = np.linalg.solve(G, np.ones(k))
+                if np.any(lam < -1e-10):
+                    continue
+                z = WA.T @ lam
+                if np.all(Wn @ z >= 1 - 1e-9) and (best is None or z @ z < best @ best - 1e-12):
+                    best = z
+        if best is None:
+            raise RuntimeError(f"no least-norm point for cone {W}")
         from scipy.optimize import minimize
 
-        Wn = np.array(W, dtype=float)
-        res = minimize(lambda z: float(z @ z), np.ones(Wn.shape[1]), method="SLSQP",
+        res = minimize(lambda z: float(z @ z), best * 1.5, method="SLSQP",
                        constraints=[{"type": "ineq", "fun": lambda z: Wn @ z - 1.0}])
-        _ustar_cache[key] = res.x / np.linalg.norm(res.x)
+        if res.success and np.linalg.norm(res.x - best) > 1e-4 * max(1.0, np.linalg.norm(best)):
+            raise RuntimeError(f"independent u*: active-set {best} vs SLSQP {res.x}")
+        _ustar_cache[key] = best / np.linalg.norm(best)
     return _ustar_cache[key]
 
 
@@ -326,28 +356,117 @@ def offset_case(rng, tier, k):
     return None if base is None else c01.with_offset(rng, base)
 
 
+VERTEX_CONES3 = ["order3d-acute", "acute3", "user3-mixed", "fourfacet3", "order3d-obtuse", "user3-asym", "pyr4_40_-1_2_2"]
+
+
+def vertex3_case(rng, k):
+    """VOGP, three objectives, non-orthant cone: as `corner_case`, and additionally every vertex pair drawn from
+    a 4-element subset {lll, uuu, two more} of the 8 corner patterns is ordered — the k-th member uses the k-th of
+    the 15 such subsets — so that an enumeration that produces only some of the corners says "dominated"."""
+    import itertools
+
+    others = [p for p in itertools.product((0, 1), repeat=3) if p not in ((0, 0, 0), (1, 1, 1))]
+    subsets = list(itertools.combinations(others, 2))
+    patterns = [(0, 0, 0), (1, 1, 1)] + list(subsets[k % len(subsets)])
+    for _ in range(12):
+        cname = rng.choice(VERTEX_CONES3)
+        W = c01.acute_cone(cname)
+        eps = rng.choice([0.1, 0.05, 0.25])
+        s = eps * ustar_estimate(W)
+        got = c01.corner_pair(rng, W, s, want_pess=True, patterns=patterns, tries=600)
+        if got is None:
+            continue
+        Y, off, half = got
+        return {"kind": "run", "alg": "VOGP", "cone": cname, "W": W, "shape": "vertex-subset-m3", "Y": Y, "eps": eps,
+                "delta": 0.05, "noise_var": 0.01, "conf": rng.choice([32, 9]), "batch": 1,
+                "adv": {"mode": "boxes", "frac": 1.0, "sd0": [[1.0] * 3] * 2, "shrink": [0.5] * 2,
+                        "seed": rng.randrange(1 << 30), "tail_shrink": 0.5,
+                        "history": [[off, half], [[[0.0] * 3] * 2, [[2.0 ** -7] * 3] * 2]]}}
+    return None
+
+
+USTAR_CONES = ["user2-scaled", "user2-skew", "user2-three", "user3-cut", "user3-cut-unit", "user3-asym", "skew2",
+               "threefacet2", "fourfacet3"]
+
+
+def wrong_ustars(Wn):
+    """directions a wrong `compute_u_star` might return: mean of unit normals, mean of raw rows, the diagonal, the
+    least-norm point of the row-normalised system"""
+    m = Wn.shape[1]
+    unit = Wn / np.linalg.norm(Wn, axis=1, keepdims=True)
+    cands = [unit.mean(axis=0), Wn.mean(axis=0), np.ones(m), ustar_estimate(unit.tolist())]
+    out = []
+    for c in cands:
+        if np.linalg.norm(c) > 0 and np.all(Wn @ c > 0):
+            out.append(c / np.linalg.norm(c))
+    return out
+
+
+def ustar_direction_case(rng, tries=400):
+    """VOGP on an asymmetric user cone (non-unit rows, a facet that is inactive for u*, N ≠ m): victim 0 is
+    ε-isolated — witness 1 plus the TRUE slack ε·u* misses it on one facet by a small margin — its box hangs below
+    the truth (outside the pessimistic set) and is so placed that with a WRONG slack direction of the same length
+    every vertex pair would be ordered."""
+    for _ in range(tries):
+        cname = rng.choice(USTAR_CONES)
+        W = c01.acute_cone(cname)
+        Wn = np.array(W, dtype=float)
+        N, m = Wn.shape
+        u = ustar_estimate(W)
+        twins = [t for t in wrong_ustars(Wn) if np.linalg.norm(t - u) > 0.05]
+        if not twins:
+            continue
+        eps = rng.choice([0.1, 0.2, 0.4])
+        s = eps * u
+        t = twins[rng.randrange(len(twins))]
+        gain = Wn @ (eps * t) - Wn @ s              # facets on which the wrong slack is more generous
+        n0 = int(np.argmax(gain / np.linalg.norm(Wn, axis=1)))
+        if gain[n0] <= 1e-3 * eps:
+            continue
+        h0 = rng.choice([0.3, 0.6, 1.0]) * eps * np.ones(m)      # wide, but the truth sits at its upper corner
+        k = rng.randrange(m)
+        h0[k] *= rng.choice([1.0, 2.0, 0.25])
+        h1 = 2.0 ** -10 * np.ones(m)
+        reach = np.abs(Wn) @ (2 * h0 + 2 * h1)
+        target = 1.5 * reach + np.abs(Wn @ s) + rng.choice([0.1, 0.3])   # W(μ_1 − μ_0) on the other facets
+        target[n0] = -(Wn @ s)[n0] - rng.choice([0.2, 0.4, 0.6]) * gain[n0]
+        d, *_ = np.linalg.lstsq(Wn, target, rcond=None)
+        fd = Wn @ d
+        if not (fd[n0] + (Wn @ s)[n0] < -1e-6 and np.all(np.delete(fd + Wn @ s, n0) > 0)):
+            continue
+        off0 = -(1 - 2.0 ** -7) * h0                   # truth near the upper corner: the box hangs below
+        lo0, hi0 = off0 - h0, off0 + h0
+        lo1, hi1 = d - h1, d + h1
+        v0s, v1s = c01.box_vertices(lo0, hi0), c01.box_vertices(lo1, hi1)
+        if all(np.all(Wn @ (v1 + s - v0) >= -1e-9) for v0 in v0s for v1 in v1s):
+            continue                                    # really dominated with the true slack
+        if not all(np.all(Wn @ (v1 + eps * t - v0) >= 1e-6) for v0 in v0s for v1 in v1s):
+            continue                                    # the wrong slack would not discard either
+        if not all(np.all(Wn @ (v1 - lo0) >= 1e-6) for v1 in v1s):
+            # the witness must pessimistically dominate the victim: lengthen the victim's box downwards along −d
+            continue
+        Y = [[0.0] * m, [float(x) for x in d]]
+        off = [[float(x) for x in off0], [0.0] * m]
+        half = [[float(x) for x in h0], [float(x) for x in h1]]
+        return {"kind": "run", "alg": "VOGP", "cone": cname, "W": W, "shape": "ustar-direction", "Y": Y, "eps": eps,
+                "delta": 0.05, "noise_var": 0.01, "conf": rng.choice([32, 9]), "batch": 1,
+                "adv": {"mode": "boxes", "frac": 1.0, "sd0": [[1.0] * m] * 2, "shrink": [0.5] * 2,
+                        "seed": rng.randrange(1 << 30), "tail_shrink": 0.5,
+                        "history": [[off, half], [[[0.0] * m] * 2, [[2.0 ** -10] * m] * 2]]}}
+    return None
+
+
 def gen(ctx):
     rng = ctx.rng
-    for k in range(ctx.n(12, 240)):
-        c = offset_case(rng, ctx.tier, k)
-        if c is not None:
-            yield c
-    for _ in range(ctx.n(8, 160)):
-        c = offaxis_case(rng)
-        if c is not None:
-            yield c
-    for _ in range(ctx.n(8, 160)):
-        c = promote_early_case(rng)
-        if c is not None:
-            yield c
-    for _ in range(ctx.n(8, 160)):
-        c = corner_case(rng)
-        if c is not None:
-            yield c
-    for alg in ALGS:
-        for kind in ("discard", "cover"):
-            for _ in range(2 if ctx.tier == "quick" else 6):
-                yield bait_case(rng, kind, alg)
+    fam = c01.family
+    # structured families (fixed sub-streams: identical in every quick run, whatever VERIF_SEED)
+    yield from fam(ctx, "offset", 12, 240, lambda r, k: offset_case(r, ctx.tier, k))
+    yield from fam(ctx, "offaxis", 8, 160, lambda r, k: offaxis_case(r))
+    yield from fam(ctx, "promote-early", 8, 160, lambda r, k: promote_early_case(r))
+    yield from fam(ctx, "acute-corner", 8, 160, lambda r, k: corner_case(r))
+    yield from fam(ctx, "vertex-subset-m3", 15, 150, vertex3_case)
+    yield from fam(ctx, "ustar-direction", 10, 160, lambda r, k: ustar_direction_case(r))
+    yield from fam(ctx, "bait", 8, 24, lambda r, k: bait_case(r, ("discard", "cover")[k % 2], ALGS[(k // 2) % 2]))
     total = ctx.n(110, 1400)
     k = 0
     shapes = ["slack-boundary", "front", "ties", "chain", "near-facet", "random"]
@@ -463,7 +582,10 @@ def run_case(ctx, case):
         return
     alg = res["alg"]
     P = sorted(int(i) for i in alg.P)
-    s = slack_of(alg)
+    s = true_slack(alg, W)       # the property's slack, independent of the code under test
+    own = slack_of(alg)
+    if own.shape != s.shape or not np.allclose(own, s, rtol=1e-5, atol=1e-8):
+        ctx.count("alg_slack_differs_from_independent_slack_info")
     ans = ctx.ask("final", core.qmat(W), core.qvec(s), core.qmat(Y), core.nats(P))
     parts = ans.split(" ")
     if len(parts) != 3 or parts[0] not in "01" or parts[1] not in "01":
